@@ -503,10 +503,21 @@ func (w *World) makeRunnable(t *task) {
 	}
 }
 
+var resets []func()
+
+// RegisterReset registers a function that puts process-wide hidden state
+// (package-level caches found by the rewriter) back to its initial value; it
+// runs at the start of every world so that worlds sharing a process do not
+// see each other's history.
+func RegisterReset(f func()) { resets = append(resets, f) }
+
 // Run executes fn as task 0 and then lets every other task run until nothing
 // can run any more. It returns the result.
 func (w *World) Run(fn func()) *Result {
 	prev := W
+	for _, f := range resets {
+		f()
+	}
 	W = w
 	defer func() { W = prev }()
 	w.main = w.newTask(nil)
